@@ -281,6 +281,23 @@ func clientObjects(kind string, fine bool) func() {
 				w.callOK("after the removal of another object", ids[i], impls[i], int32(40+n))
 			}
 		}
+		// a later message addressed to a removed object is answered with an
+		// error and runs nothing
+		{
+			before := impls[0].Total()
+			var lateV int32
+			var lateErr error
+			lw := vrt.GoWorker("late-caller", func() { lateV, lateErr = w.proxy(ids[0]).Echo(77) })
+			vrt.Quiesce()
+			if !lw.Done() {
+				vrt.Failf("=client-side/removed-object-call-never-answered", "a call addressed to a removed client-side object is never answered: the hosting endpoint drops the frame (no handler matches) instead of answering with an error; the caller is blocked on %s", lw.BlockedOn())
+			} else if lateErr == nil {
+				vrt.Failf("removed-object-answers/client-side", "echo(77) on removed client-side object %d succeeded (returned %d)", ids[0], lateV)
+			}
+			if impls[0].Total() != before {
+				vrt.Failf("removed-object-invoked/client-side", "a call addressed to removed client-side object %d ran a method", ids[0])
+			}
+		}
 		vrt.Quiesce()
 		fx.Settle()
 		vrt.Observe("%s how=%d ids=%v", kind, how, ids)
